@@ -62,6 +62,9 @@ func cmdSelftest(args []string) int {
 		for _, p := range defaultDeny {
 			eng.denyPkgs[p] = true
 		}
+		for _, p := range spec.AllowPkgs {
+			delete(eng.denyPkgs, p)
+		}
 		if rp := prog.ImportedPackage("runtime"); rp != nil {
 			if t := rp.Type("errorString"); t != nil {
 				eng.runtimeErrType = t.Type()
@@ -97,6 +100,7 @@ func cmdSelftest(args []string) int {
 			if strings.Join(got, "\n") != strings.Join(want, "\n") {
 				bad++
 				fmt.Printf("selftest %s/%s: MISMATCH executor vs native (%d vs %d observations)\n", prop, en, len(got), len(want))
+				shown := 0
 				for i := 0; i < len(got) || i < len(want); i++ {
 					var g, w string
 					if i < len(got) {
@@ -107,7 +111,10 @@ func cmdSelftest(args []string) int {
 					}
 					if g != w {
 						fmt.Printf("   #%d executor=%q native=%q\n", i, g, w)
-						break
+						shown++
+						if shown >= 4 {
+							break
+						}
 					}
 				}
 				continue
